@@ -28,6 +28,9 @@ def _writeSinglePotential(pot, minr, maxr, gridPoints, out):
     if gridPoints == 1:
       # a single row (nr = 2): minr == maxr == cutoff
       r = minr
+    elif n == gridPoints:
+      # the last row is the declared upper bound itself: minr + (maxr - minr) can round to a value beyond it
+      r = maxr
     else:
       r = minr + float(n-1)* (maxr - minr) / (float(gridPoints) -1)
     energy = pot.energy(r)
